@@ -116,4 +116,30 @@ static inline struct smp_it smp_erase(struct seqmap_pkt *m, struct smp_it it)
   return nx;
 }
 static inline void smp_clear(struct seqmap_pkt *m) { m->has_G = 0; m->size = 0; }
+/* ---- move construction of members (language semantics of the member's move constructor) ----
+ * scalars: copy; aux::function: take the callable, source empty; std::vector / std::map / std::unordered_map / shared_ptr: take the
+ * content, source empty (libstdc++); high_resolution_timer(high_resolution_timer&&) = default: memberwise.  A self-move
+ * MC(&self->x, &self->x) copies the member onto itself: the (unconstrained) content of the new object's memory stays. */
+#ifndef VF_MOVE_CONSTRUCT
+#define VF_MOVE_CONSTRUCT
+#define FN_MOVE_CONSTRUCT(dst, src) (*(dst) = fn_move(src))
+static inline void mc_int(int *d, int *s) { *d = *s; }
+static inline void mc_bool(bool *d, bool *s) { *d = *s; }
+static inline void mc_u64(uint64_t *d, uint64_t *s) { *d = *s; }
+static inline void mc_i64(int64_t *d, int64_t *s) { *d = *s; }
+static inline void mc_bufseq(bufseq_t *d, bufseq_t *s) { *d = *s; if (d != s) *s = BUFSEQ_EMPTY; }
+static inline void mc_pl(struct pktlist *d, struct pktlist *s) { *d = *s; if (d != s) { s->len = 0; s->bytes = 0; } }
+static inline void mc_smi(struct seqmap_int *d, struct seqmap_int *s) { *d = *s; if (d != s) { s->size = 0; s->sum = 0; s->has_G = 0; } }
+static inline void mc_smp(struct seqmap_pkt *d, struct seqmap_pkt *s) { *d = *s; if (d != s) { s->size = 0; s->has_G = 0; } }
+static inline void mc_timer(struct hrtimer *d, struct hrtimer *s) { *d = *s; if (d != s) s->m_handler = 0; }
+static inline void mc_chan(struct channel **d, struct channel **s) { *d = *s; if (d != s) *s = (struct channel *)0; }
+static inline void mc_epp(ep_t **d, ep_t **s) { *d = *s; }
+#define MC(dst, src) _Generic((dst), int *: mc_int, bool *: mc_bool, uint64_t *: mc_u64, int64_t *: mc_i64, bufseq_t *: mc_bufseq, \
+    struct pktlist *: mc_pl, struct seqmap_int *: mc_smi, struct seqmap_pkt *: mc_smp, struct hrtimer *: mc_timer, struct channel **: mc_chan, ep_t **: mc_epp)(dst, src)
+/* socket_base(socket_base&&) = default: memberwise move of the base-class members (shared_ptr m_forwarder: source becomes null) */
+#define SOCKET_BASE_MOVE_CONSTRUCT(d, s) do { (d)->m_io_service = (s)->m_io_service; (d)->m_bound_to = (s)->m_bound_to; (d)->m_user_bound_to = (s)->m_user_bound_to; \
+    (d)->m_forwarder = (s)->m_forwarder; (s)->m_forwarder = (struct sink_forwarder *)0; (d)->m_open = (s)->m_open; (d)->m_non_blocking = (s)->m_non_blocking; \
+    (d)->m_dont_fragment = (s)->m_dont_fragment; (d)->m_max_receive_queue_size = (s)->m_max_receive_queue_size; (d)->m_send_queue_time = (s)->m_send_queue_time; } while (0)
+#endif
+
 #endif
